@@ -130,6 +130,24 @@ def check(ctx, mod, patterns, exclude, fnames, names, toks=None, key=None):
             ctx.disagree('number of capturing groups differs from the number of extended groups',
                          dict(wit, regex=inc[0], capturing_groups=r.groups, extended_groups=len(tree)))
             return
+        # the same pattern translated as an exclusion (exclude=, inline `!`, inline `-`): the same groups, the same captures
+        if isinstance(patterns, str) and exclude is None and tree and 'NEGATE' not in fnames and not patterns.startswith(('!', '-')):
+            star = '**' if mod is G and ('GLOBSTAR' in fnames) else '*'
+            for what, call_ in (('exclude=', lambda: mod.translate(star, flags=flags, exclude=patterns)),
+                                ('inline !', lambda: mod.translate([star, '!' + patterns], flags=flags | mod.NEGATE)),
+                                ('inline -', lambda: mod.translate([star, '-' + patterns], flags=flags | mod.NEGATE | mod.MINUSNEGATE))):
+                if what == 'inline !' and patterns.startswith('('):
+                    continue
+                try:
+                    _i2, e2 = call_()
+                    groups = [re.compile(x).groups for x in e2[:1]]
+                except Exception as e:  # noqa: BLE001
+                    groups = f'raised {type(e).__name__}'
+                ctx.count('exclusion_group_count_checks')
+                if groups != [len(tree)]:
+                    ctx.disagree('an exclusion regex does not hold one capturing group per extended group of its pattern',
+                                 dict(wit, spelling=what, capturing_groups=groups, extended_groups=len(tree)))
+                    return
         if tree:
             simple = top_level_capture_shape(toks) and 'MATCHBASE' not in fnames
             for n in names:
